@@ -23,6 +23,7 @@
    (partitioned flush, partitioned watermark results) are compared after sorting by
    key (see Run.v). *)
 From VP Require Import Base.Tactics.
+Open Scope Z_scope.
 
 Record ev := mkEv { eid : Z; ets : Z; ekey : Z }.
 (* ekey < 0 models an event without the partition field (Rust: key "default") *)
@@ -119,14 +120,14 @@ Definition sl_wm (w : sliding) (wm : Z) : sliding * option (list ev) :=
 
 (* -------------------------------------------------------- count sliding *)
 Record scount := mkSc { sc_size : nat; sc_slide : nat; sc_buf : list ev; sc_since : nat }.
-Definition sc_new (size slide : nat) : scount := mkSc size slide [] 0.
+Definition sc_new (size slide : nat) : scount := mkSc size slide [] 0%nat.
 
 Definition sc_add (w : scount) (e : ev) : scount * option (list ev) :=
   let b0 := sc_buf w ++ [e] in
   let since := S (sc_since w) in
-  let b := skipn (length b0 - sc_size w) b0 in       (* saturating_sub + drain(0..overflow) *)
+  let b := skipn (length b0 - sc_size w)%nat b0 in       (* saturating_sub + drain(0..overflow) *)
   if (sc_size w <=? length b)%nat && (sc_slide w <=? since)%nat
-  then (mkSc (sc_size w) (sc_slide w) b 0, Some b)
+  then (mkSc (sc_size w) (sc_slide w) b 0%nat, Some b)
   else (mkSc (sc_size w) (sc_slide w) b since, None).
 
 (* ---------------------------------------------------------- partitioned *)
